@@ -115,12 +115,14 @@ class C06(OptEngineBase):
                     "tol": rng.choice([0.0, 1e-12, 1e-8, 1e-4, 1e-4, 1e-2, 1e-1]),
                     "fix_first_pose": rng.random() < 0.5,
                     "verbose": rng.random() < 0.4,
-                    "stdout": {"kind": rng.choice(["memory", "memory", "none", "slow"])},
+                    "stdout": {"kind": rng.choice(["memory", "memory", "none", "slow", "ascii"])},
                 })
                 if not single and rng.random() < 0.35:
                     ops[-1]["shadow"] = True
                 if rng.random() < 0.15:
                     ops[-1]["call_style"] = "positional"  # optimize(tol, max_iter, fix_first_pose, verbose), the documented order
+                if rng.random() < 0.12:
+                    ops[-1]["flag_type"] = rng.choice(["np_bool", "int"])  # fix_first_pose=np.True_ / 1 / 0
                 if rng.random() < 0.08:
                     ops[-1].update({"use_defaults": True, "tol": 1e-4, "max_iter": 20, "fix_first_pose": True, "verbose": True})
         case = {"config": config, "workload": workload, "meta": meta, "ops": ops, "faults": []}
@@ -237,19 +239,23 @@ class C06(OptEngineBase):
                     raised = None
                     result = None
                     try:
+                        ffp = op["fix_first_pose"]
+                        if op.get("flag_type") == "np_bool":
+                            ffp = np.bool_(ffp)
+                        elif op.get("flag_type") == "int":
+                            ffp = int(ffp)
                         if op.get("use_defaults"):
                             result = g.optimize()
                         elif op.get("call_style") == "positional":
-                            result = g.optimize(op["tol"], op["max_iter"], op["fix_first_pose"], op["verbose"])
+                            result = g.optimize(op["tol"], op["max_iter"], ffp, op["verbose"])
                         else:
-                            result = g.optimize(tol=op["tol"], max_iter=op["max_iter"], fix_first_pose=op["fix_first_pose"],
-                                                verbose=op["verbose"])
+                            result = g.optimize(tol=op["tol"], max_iter=op["max_iter"], fix_first_pose=ffp, verbose=op["verbose"])
                     except Exception as e:  # noqa
                         raised = e
                     after = poses_snapshot(g)
                     fired = w.plan.fired[fired_before:]
                     fired_kinds = {f["kind"] for f in fired}
-                    if "nan_fill" in fired_kinds and (case.get("config") or {}).get("warnings", {}).get("kind") == "error":
+                    if "nan_fill" in fired_kinds and (case.get("config") or {}).get("warnings", {}).get("kind") in ("error", "error_all"):
                         # under -W error the singular-factor warning of the (simulated) solver is itself the exception
                         fired_kinds = fired_kinds | {"raise_rankwarning"}
                     result_changing = bool(fired_kinds & (RAISING | {"nan_fill"}))
